@@ -12,6 +12,12 @@
 (*     for records whose values have no exact image in model units);       *)
 (*   strict (SyncRoundTrace_strict.cfg): the recorded values are the ones  *)
 (*     the specification computes (DRIFT only).                            *)
+(* The local clock (Sleep returning late, Now() stepped, Epoch advancing)  *)
+(* is environment: the driver's fake clock plays the [slp, stp] choice of  *)
+(* the generated behaviour and each round record says what the clock did   *)
+(* during the Sleep call before it (el, epoch).  The monitor clauses do    *)
+(* not mention it - they are simply evaluated on rounds that follow a jump *)
+(* as on any other; strict checks that the fake clock played the choice.   *)
 (***************************************************************************)
 EXTENDS Integers, Sequences, FiniteSets, TLC, Json
 
@@ -23,11 +29,12 @@ MaxRound == 0
 FailKinds == {}
 AnyOrder == FALSE
 Canon == FALSE
+Elapse == {}
 NoCfg == [nref |-> 1, npeer |-> 1, ri4 |-> 5, pi4 |-> 10, cutoff |-> 8, interval |-> 8,
           timeout |-> 4, drift |-> 2]
 Cfgs == {NoCfg}
 VARIABLES cfg, phase, round, refSlots, peerSlots, refDone, peerDone, refOff, peerOff,
-          refCorr, peerCorr, refOk, peerOk, corr, ndo, adjLog, cur, hist, l
+          refCorr, peerCorr, refOk, peerOk, corr, ndo, adjLog, cur, hist, now, epoch, l
 INSTANCE SyncRound
 
 Trace == ndJsonDeserialize("trace.ndjson")
@@ -49,6 +56,9 @@ TNext ==
        /\ round' = r.rnd /\ ndo' = r.ndo
        /\ refOff' = r.ro /\ peerOff' = r.po /\ refCorr' = r.rc /\ peerCorr' = r.pc /\ corr' = r.corr
        /\ refOk' = r.rok /\ peerOk' = r.pok
+       \* what the fake local clock did during the Sleep call before this round
+       \* (a record on its own says nothing about the reading before it)
+       /\ now' = r.el /\ epoch' = r.epoch
   /\ UNCHANGED <<refSlots, peerSlots, refDone, peerDone, adjLog, cur, hist>>
 TSpec == TInit /\ [][TNext]_<<vars, l>>
 
@@ -70,4 +80,10 @@ SStep == (l > 0 /\ Readable(R)) =>
 \* the behaviour TLC generated predicted exactly these values
 SExpected == (l > 0 /\ Readable(R) /\ R.hasexp) =>
    /\ R.ro = R.ero /\ R.po = R.epo /\ R.rc = R.erc /\ R.pc = R.epc /\ R.corr = R.ecorr
+\* the fake clock did what the generated behaviour says the environment does:
+\* the reading moved by slp + stp half intervals across the Sleep call and the
+\* epoch advanced iff the reading was stepped (binding check of the driver)
+SClock == (l > 0 /\ R.k = "round" /\ R.hasexp /\ R.rnd > 1) =>
+   /\ R.el = ReadingDelta([slp |-> R.eslp, stp |-> R.estp])
+   /\ R.slept = R.eslp
 =============================================================================
